@@ -1,7 +1,7 @@
 #!/usr/bin/env python3
 """Run every self-test mutant (selftest/mutants/<PROP>_*.patch) and every seeded change (seeded/<PROP>_<X>/patch.diff)
 against the quick tier of its property on a scratch copy of /repo/src (VERIF_REPO_SRC), and write
-selftest/mutant_results.json.  usage: run_mutants.py [--only PROP ...] [--seeded-only] [--jobs N]"""
+selftest/mutant_results.json.  usage: run_mutants.py [--only PROP ...] [--seeded-only] [--retry-failed] [--jobs N]"""
 import glob
 import json
 import os
@@ -29,9 +29,14 @@ def run_one(item):
         for c in checks:
             env = dict(os.environ, VERIF_REPO_SRC=f"{d}/src", VERIF_REPLAY_DIR=f"{d}/replays", VERIF_EVIDENCE_DIR=f"{d}/evidence")
             t0 = time.time()
-            q = subprocess.run(["./run_check.sh", c, "quick"], cwd=ROOT, env=env, capture_output=True, text=True)
+            for attempt in range(2):
+                q = subprocess.run(["./run_check.sh", c, "quick"], cwd=ROOT, env=env, capture_output=True, text=True)
+                if q.returncode != 2:
+                    break  # exit 2 = the machinery failed (seen under heavy load): once more before it is recorded
             txt = q.stdout + q.stderr
             out[c] = {"exit": q.returncode, "clauses": sorted(set(re.findall(r"clause=(\S+)", txt)))[:5], "wall_s": round(time.time() - t0)}
+            if q.returncode == 2:
+                out[c]["machinery"] = [l for l in txt.splitlines() if "MACHINERY" in l][:2]
         return name, out
     finally:
         shutil.rmtree(d, ignore_errors=True)
@@ -57,6 +62,14 @@ def main():
         items.append(("seeded:" + nm, f"{dpath}patch.diff", EXTRA_CHECKS.get(nm, [prop])))
     res_path = f"{ROOT}/selftest/mutant_results.json"
     results = json.load(open(res_path)) if os.path.exists(res_path) else {}
+    if "--retry-failed" in sys.argv:
+        # only the items whose last recorded result is a machinery failure, an inapplicable patch, or missing
+        def failed(name):
+            r = results.get(name)
+            return r is None or "error" in r or any(isinstance(v, dict) and v.get("exit") == 2 for v in r.values())
+
+        items = [it for it in items if failed(it[0])]
+        print(f"retrying {len(items)} items", flush=True)
     with ThreadPoolExecutor(max_workers=jobs) as ex:
         for name, out in ex.map(run_one, items):
             results[name] = out
